@@ -26,3 +26,26 @@ Definition load_outcome (opens suffix_known content_ok_for_suffix content_sniffa
   if opens then (if suffix_known then (if content_ok_for_suffix then Found 0 else Thrown)
                  else (if content_sniffable then Found 0 else Thrown)) else Thrown.
 Definition save_outcome (opens : bool) : lres := if opens then Found 0 else Thrown.
+
+(* ---- a Geometry object that is reused: load() replaces the meshes / interfaces / domains; a lookup sees the current ones ---- *)
+Inductive gop := GLoad (names : list Z) | GLookup (q : Z).
+Fixpoint grun (st : list Z) (ops : list gop) : list lres :=
+  match ops with
+  | [] => []
+  | GLoad n :: t => grun n t
+  | GLookup q :: t => lookup st q :: grun st t
+  end.
+(* a lookup that remembers name -> position across load() and trusts a remembered position (NOT the code) *)
+Fixpoint grun_cached (cache : list (Z * nat)) (st : list Z) (ops : list gop) : list lres :=
+  match ops with
+  | [] => []
+  | GLoad n :: t => grun_cached cache n t
+  | GLookup q :: t =>
+      match find (fun e => fst e =? q) cache with
+      | Some e => Found (snd e) :: grun_cached cache st t
+      | None => match lookup st q with
+                | Found p => Found p :: grun_cached ((q, p) :: cache) st t
+                | r => r :: grun_cached cache st t
+                end
+      end
+  end.
